@@ -24,7 +24,7 @@ ASSUMPTIONS = [
 ]
 MUST = ["reconnect_after_failure", "reconnect_after_close", "reconnect_after_peerdrop", "reconnect_after_loop_change",
         "keepalive_reuse", "no_keepalive_closed_after_request", "final_close_zero", "max_one_checked",
-        "queued_caller_cancelled", "concurrent_close_and_requests"]
+        "queued_caller_cancelled", "concurrent_close_and_requests", "setting_write_histories"]
 EXHAUSTIVE = {"quick": True, "thorough": True}
 
 REQ_CLASSES = {
@@ -315,6 +315,78 @@ def run_concurrent_case(sc, part):
     return vs
 
 
+def setting_write_cases(part):
+    """keep-alive off (and on), through the family API: a one-byte setting is written (read-modify-write = two requests) while the
+    inverter refuses / ignores one of the two halves; afterwards ordinary requests: with keep-alive off no socket may stay open once a
+    request has ended, and never more than one at a time"""
+    import asyncio
+    from .. import env, models
+    g = env.goodwe()
+    for fam, port in (("ET", 8899), ("ET", 502), ("DT", 8899)):
+        for ka in (False, True):
+            for fault in ("read-refused", "write-refused", "read-silent", "none"):
+                sim = models.family_sim(fam)
+                seen = []
+
+                async def flow(loop):
+                    inv = models.family_cls(g, fam)("inv0", port, 0, 1, 1)
+                    inv.set_keep_alive(ka)
+                    await inv.read_device_info()
+
+                    async def settle(label):
+                        await asyncio.sleep(0)
+                        await asyncio.sleep(0)
+                        seen.append((label, len(loop.live)))
+                    await settle("read_device_info")
+                    sid, reg = ("eco_mode_1_switch", 47549) if fam == "ET" else ("grid_export_limit", 40328)
+                    if fault == "read-refused":
+                        sim.exc_map[(3, reg, 1)] = 6
+                    elif fault == "write-refused":
+                        sim.exc_map[(6, reg)] = 4
+                    elif fault == "read-silent":
+                        sim.silent = True
+                    try:
+                        await inv.write_setting(sid, 1)
+                    except (g.InverterError, ValueError):
+                        pass
+                    sim.exc_map.clear()
+                    sim.silent = False
+                    await settle(f"write_setting({sid}) with {fault}")
+                    for call in ("read_runtime_data", "get_grid_export_limit", "read_runtime_data"):
+                        try:
+                            await getattr(inv, call)()
+                        except g.InverterError:
+                            pass
+                        await settle(call)
+                    await inv._protocol.close()
+                    await settle("close")
+
+                run = engine.run_custom({("inv0", port): sim}, flow, vtime_cap=600, tx_cap=600)
+                part.evaluations += 1
+                part.count("setting_write_histories")
+                tr = "udp" if port == 8899 else "tcp"
+                ctx = f"{fam} port {port} keep_alive={ka}, one-byte/setting write with {fault}"
+                case = {"setting_write": True}
+                if run.stop or run.error is not None:
+                    part.violate(f"C10/{tr}/hang" if run.stop else f"C10/{tr}/setup", f"{ctx}: {run.stop or repr(run.error)}", case)
+                    continue
+                live, worst = set(), 0
+                for e in run.events:
+                    if e[1] == "open":
+                        live.add(e[2])
+                        worst = max(worst, len(live))
+                    elif e[1] == "close":
+                        live.discard(e[2])
+                if worst > 1:
+                    part.violate(f"C10/{tr}/two-open-sockets", f"{ctx}: {worst} sockets open at the same time", case)
+                for label, n in seen:
+                    if (not ka or label == "close") and n:
+                        part.violate(f"C10/{tr}/open-after-request" if label != "close" else f"C10/{tr}/open-after-close",
+                                     f"{ctx}: {n} socket(s) still open after {label} returned", case)
+                        break
+                part.see(f"setting-write|{fam}|{port}|{ka}|{fault}")
+
+
 def plan(tier, seed):
     specs = [{"cancel": True}]
     depth = 3 if tier == "quick" else 4
@@ -340,6 +412,7 @@ def run_shard(spec):
                                 run_cancel_case(cancel_scenario(transport, ka, R, a_class, cancel_at, b_start), part)
         for sc in concurrent_scenarios():
             run_concurrent_case(sc, part)
+        setting_write_cases(part)
         return part
     for d in range(0, spec["depth"]):
         for rest in itertools.product(ACTIONS, repeat=d):
@@ -355,5 +428,8 @@ def run_shard(spec):
 
 def replay(case):
     part = Part()
+    if case.get("setting_write"):
+        setting_write_cases(part)
+        return [{"key": v["key"], "msg": v["msg"]} for v in part.violations]
     vs = (run_concurrent_case if case.get("concurrent") else run_cancel_case if case.get("cancel") else run_case)(case["scenario"], part)
     return [{"key": k, "msg": m} for k, m in vs]
